@@ -58,7 +58,7 @@ def getHandler(
     statresult = None
     try:
         statresult = vfs.stat(selector)
-    except OSError:
+    except (OSError, ValueError):
         pass
     for handler in handlerlist:
         htry = handler(selector, searchrequest, protocol, config, statresult, vfs)
